@@ -27,7 +27,7 @@ VARIABLE i
 Init == i = 0
 Next == i < Len(Data.cases) /\ i' = i + 1
 
-SolOK(c, y) == Closed(y) /\ ValidTree(c.g, y) /\ y.nt /\ y.n = "<start>" /\ SatTop(c.g, y, c.phi, 6)
+SolOK(c, y) == Closed(y) /\ ValidTree(c.g, y) /\ y.nt /\ y.n = "<start>" /\ (HasBigNumeral(y) \/ SatTop(c.g, y, c.phi, 6))
 
 JudgeCase(k) ==
   LET c == Data.cases[k]
@@ -55,7 +55,7 @@ JudgeCase(k) ==
                ELSE IF r.res = "tree" THEN
                     (IF r.s \notin lang THEN "parsed-a-non-member"
                      ELSE IF ~(ValidTree(c.g, r.tree) /\ Closed(r.tree) /\ Yield(r.tree) = r.s) THEN "parse-tree-unfaithful"
-                     ELSE IF ~SatTop(c.g, r.tree, c.phi, 6) THEN "parse-returned-violating-tree" ELSE "OK")
+                     ELSE IF ~HasBigNumeral(r.tree) /\ ~SatTop(c.g, r.tree, c.phi, 6) THEN "parse-returned-violating-tree" ELSE "OK")
                ELSE "parse-raised"
           [] r.op = "Repair" ->
                IF r.res = "timeout" THEN "UNJUDGED"
